@@ -24,7 +24,7 @@ import itertools
 
 import numpy as np
 
-from mc.core import Check, Failure
+from mc.core import Check, Failure, HarnessError
 from mc.letters import rs
 
 # ---------------------------------------------------------------------------------------------------
@@ -34,6 +34,7 @@ from mc.letters import rs
 # ---------------------------------------------------------------------------------------------------
 TOL = {"f8": 1e-9, "f4": 1e-3}  # relative to max |reference precision entry| (DESIGN.md 3/C12: 1e-9 / 1e-3 for float32)
 TOL_MEAN = 1e-12  # absolute, times max(1, max |data|)
+TOL_MEAN_F4 = 1e-5  # the same for float32 training data (np.mean accumulates in float32: observed <= 2e-8)
 TOL_SAME_MODEL = 1e-9  # batch[i] vs single(i) of ONE model (same stored matrix, float64 arithmetic)
 TOL_EIGPAIR = {"f8": 1e-6, "f4": 1e-3}  # |Q c - c / l| relative to max |Q| (ARPACK residuals included)
 
@@ -45,10 +46,59 @@ MODES = ["concatenation", "subtraction"]
 NCOMP_QUICK = ["none", "trunc"]
 NCOMP_THOROUGH = ["none", "trunc", "full"]  # full: the SVD path keeping every component (== plain inverse)
 DTYPES = ["f8", "f4"]
-FEEDS = ["array", "list", "pc"]
+FEEDS = ["array", "list", "pc"]  # crossed with every configuration letter
 # array : GMRFVectorModel fed an (n, V k) ndarray
 # list  : GMRFVectorModel fed a python list of 1-d arrays (np.array(data)[:n] branch of _data_to_matrix)
 # pc    : GMRFModel fed a list of PointClouds with V points of k dimensions (as_matrix, template instance)
+
+# 'argument form' letters: the SAME payload presented in every other form the API accepts on the unchanged tree.
+# Training data (crossed with both modes; bias 0, plain inverse, float64 precision - the form only matters to the
+# ingestion of the data).  Letters marked (Xi) carry the integer-valued payload Xi = rint(16 X), which every dtype
+# below represents exactly; the others carry the generic payload X.
+FORM_FEEDS = [
+    "tuple",  # tuple of 1-d arrays
+    "lol",  # list of lists of python floats
+    "tot",  # tuple of tuples of python floats
+    "lolint",  # (Xi) list of lists of python ints
+    "i8",  # (Xi) int64 ndarray
+    "i4",  # (Xi) int32 ndarray
+    "i2",  # (Xi) int16 ndarray
+    "f4d",  # (Xi) float32 ndarray: np.mean then works in single precision - mean / distances judged at float32 tolerance
+    "ro",  # read-only ndarray
+    "fortran",  # column-major ndarray
+    "strided",  # every second column of a wider array
+    "rowstrided",  # every second row of a taller array
+    "negstride",  # view with negative strides on both axes
+    "pc-tuple",  # GMRFModel fed a tuple of PointClouds
+    "pc-i8",  # (Xi) GMRFModel fed PointClouds with int64 points
+    "pc-f4",  # (Xi) GMRFModel fed PointClouds with float32 points (single-precision mean, as f4d)
+]
+XI_FEEDS = ("lolint", "i8", "i4", "i2", "f4d", "pc-i8", "pc-f4")
+F4_MEAN_FEEDS = ("f4d", "pc-f4")
+XI_SCALE = 16.0
+NP_DTYPES = {"i8": np.int64, "i4": np.int32, "i2": np.int16, "u1": np.uint8, "f4": np.float32, "f2": np.float16, "b1": np.bool_, "f4d": np.float32}
+# Query forms (form, shape): shape s = one vector, r = a (1, N) matrix, b = a batch.  Payloads: integer valued vectors in
+# [0, 255] (qi) for the dtype forms, 0/1 vectors (qb) for bool, the generic float queries for containers and views.
+VEC_QFORMS = [
+    ("i8", "s"), ("i4", "s"), ("i2", "s"), ("u1", "s"), ("f4", "s"), ("f2", "s"), ("b1", "s"), ("i8", "r"),
+    ("i8", "b"), ("u1", "b"), ("f4", "b"), ("b1", "b"),
+    ("pylist-int", "s"), ("pylist-float", "s"), ("pytuple-float", "s"), ("pylist-bool", "s"), ("list-npfloat", "s"), ("list-npint", "s"),
+    ("lol", "b"), ("lolint", "b"), ("tot", "b"), ("tuple", "b"), ("list-mixed", "b"),
+    ("ro", "s"), ("strided", "s"), ("negstride", "s"), ("fortran", "b"), ("strided", "b"), ("ro", "b"),
+]
+VEC_QFORMS_NOSUB = [("i8", "s"), ("b1", "s"), ("u1", "b")]
+PC_QFORMS = [("pc-i8", "s"), ("pc-u1", "s"), ("pc-f4", "s"), ("pc-b1", "s"), ("pc-list-i8", "b"), ("pc-list-f4", "b"), ("pc-fortran", "s"), ("pc-ro", "s")]
+PC_QFORMS_NOSUB = [("pc-i8", "s")]
+VEC_QFORMS_REDUCED = [("i8", "s"), ("u1", "s"), ("f4", "s"), ("b1", "s")]
+PC_QFORMS_REDUCED = [("pc-i8", "s"), ("pc-f4", "s")]
+INT_FORMS = ("i8", "i4", "i2", "u1", "f4", "f2", "pylist-int", "list-npint", "lolint", "pc-i8", "pc-u1", "pc-f4", "pc-list-i8", "pc-list-f4")
+BOOL_FORMS = ("b1", "pylist-bool", "pc-b1")
+# not letters, because the unchanged tree rejects or mishandles them in ways the property text does not cover:
+#   GMRFVectorModel(generator, n_samples=n)  -> np.array(generator) is 0-d, IndexError
+#   GMRFModel.mahalanobis_distance(tuple of PointClouds) -> AttributeError (only `list` is recognised)
+#   float16 training data -> np.mean works in half precision (mean wrong by 1e-2)
+#   a LIST of PointClouds of mixed dtype whose first element is integer -> menpo.math.as_matrix allocates the data
+#   matrix with the dtype of the first element and truncates the others (reported; defect of as_matrix)
 
 QUERIES = ["mean", "single", "row", "batch", "batchmean", "listq"]
 # mean      : the sample mean itself (1-d)                -> distance 0
@@ -176,7 +226,8 @@ _DATA = {}
 
 
 def gmrf_data(seed, nv, k):
-    """(X, queries): 14 x (nv k) correlated data and 3 query vectors.  Deterministic redraw until every block
+    """(X, queries, Xi, bool queries): 14 x (nv k) correlated data, 3 query vectors, the integer-valued payload
+    Xi = rint(16 X) (under the same guard) and two complementary 0/1 query vectors.  Deterministic redraw until every block
     covariance that any graph on nv vertices can ask for (single vertex; every vertex pair concatenated and
     subtracted; both bias conventions have the same conditioning) has condition number <= COND_MAX and its two
     smallest eigenvalues are separated by a factor >= GAP_MIN (so that the rank b-1 pseudo-inverse is well defined).
@@ -198,13 +249,25 @@ def gmrf_data(seed, nv, k):
                 Xb = X[:, b * k : (b + 1) * k]
                 blocks.append(np.hstack((Xa, Xb)))
                 blocks.append(Xa - Xb)
+        Xi = np.rint(XI_SCALE * X)
+        for a in range(nv):
+            Xa = Xi[:, a * k : (a + 1) * k]
+            blocks.append(Xa)
+            for b in range(a + 1, nv):
+                Xb = Xi[:, b * k : (b + 1) * k]
+                blocks.append(np.hstack((Xa, Xb)))
+                blocks.append(Xa - Xb)
+        if np.abs(Xi).max() > 30000:
+            ok = False
         for M in blocks:
             lam = np.linalg.eigvalsh(ref_cov(M, 0))
             if lam[0] <= 0 or lam[-1] / lam[0] > COND_MAX or (len(lam) > 1 and lam[1] / lam[0] < GAP_MIN):
                 ok = False
                 break
         if ok:
-            _DATA[key] = (X, q)
+            qb = r.rand(2, d) > 0.5
+            qb[1] = ~qb[0]
+            _DATA[key] = (X, q, Xi, qb)
             return _DATA[key]
     raise RuntimeError("conditioning guard could not be satisfied for %r" % ((nv, k),))
 
@@ -225,6 +288,67 @@ def _dense(p):
 
 def _decade(err):
     return "exact" if err <= 0 else "1e%+03d" % int(np.ceil(np.log10(err)))
+
+
+def _exact(A, dt):
+    """A in another dtype; the payloads are chosen so that the conversion loses nothing (else the letter is wrong)."""
+    B = np.asarray(A).astype(dt)
+    if not np.array_equal(B.astype(float), np.asarray(A, dtype=float)):
+        raise HarnessError("payload is not exactly representable as %s" % np.dtype(dt).name)
+    return B
+
+
+def present(A, form):
+    """the float64 values A (1-d vector or 2-d matrix) presented in the argument form `form`."""
+    A = np.array(A, dtype=float, copy=True)
+    if form == "array":
+        return A
+    if form in NP_DTYPES:
+        return _exact(A, NP_DTYPES[form])
+    if form == "list":
+        return [r.copy() for r in A]
+    if form == "tuple":
+        return tuple(r.copy() for r in A)
+    if form == "lol":
+        return [[float(v) for v in r] for r in A]
+    if form == "tot":
+        return tuple(tuple(float(v) for v in r) for r in A)
+    if form == "lolint":
+        _exact(A, np.int64)
+        return [[int(v) for v in r] for r in A]
+    if form == "list-mixed":
+        return [_exact(A[0], np.int64)] + [r.copy() for r in A[1:]]
+    if form == "pylist-float":
+        return [float(v) for v in A]
+    if form == "pytuple-float":
+        return tuple(float(v) for v in A)
+    if form == "pylist-int":
+        _exact(A, np.int64)
+        return [int(v) for v in A]
+    if form == "pylist-bool":
+        _exact(A, np.bool_)
+        return [bool(v) for v in A]
+    if form == "list-npfloat":
+        return [np.float64(v) for v in A]
+    if form == "list-npint":
+        return [np.int64(v) for v in _exact(A, np.int64)]
+    if form == "ro":
+        A.setflags(write=False)
+        return A
+    if form == "fortran":
+        return np.asfortranarray(A)
+    if form == "strided":
+        W = np.full(A.shape[:-1] + (2 * A.shape[-1],), 7.5)
+        W[..., ::2] = A
+        return W[..., ::2]
+    if form == "rowstrided":
+        W = np.full((2 * A.shape[0],) + A.shape[1:], 7.5)
+        W[::2] = A
+        return W[::2]
+    if form == "negstride":
+        sl = (slice(None, None, -1),) * A.ndim
+        return A[sl].copy()[sl]
+    raise ValueError(form)
 
 
 class C12(Check):
@@ -262,16 +386,31 @@ class C12(Check):
     # ------------------------------------------------------------------ state
     def build(self, root):
         kind, nv, edges, rootv, k = root
-        X, q = gmrf_data(self.seed, nv, k)
-        st = {"root": root, "nv": nv, "k": k, "edges": tuple(tuple(e) for e in edges), "X": X, "q": q, "cfg": None, "models": None, "ref": None}
-        st["mu"] = X.sum(axis=0) / X.shape[0]
-        st["xscale"] = max(1.0, float(np.abs(X).max()))
+        X, q, Xi, qb = gmrf_data(self.seed, nv, k)
+        st = {"root": root, "nv": nv, "k": k, "edges": tuple(tuple(e) for e in edges), "X0": X, "q0": q, "Xi": Xi, "qb": qb, "cfg": None, "models": None, "ref": None}
+        self._payload(st, "array")
         deg = [0] * nv
         for a, b in st["edges"]:
             deg[a] += 1
             deg[b] += 1
         st["deg"] = deg
         return st
+
+    def _payload(self, st, feed):
+        """the values the model is trained on and queried with: generic payload, or the integer-valued one."""
+        if feed in XI_FEEDS:
+            X, q = st["Xi"], XI_SCALE * st["q0"]
+        else:
+            X, q = st["X0"], st["q0"]
+        st["X"], st["q"] = X, q
+        st["qi"] = np.clip(np.rint(q), 0, 255)
+        st["mu"] = X.sum(axis=0) / X.shape[0]
+        st["xscale"] = max(1.0, float(np.abs(X).max()))
+        st["tol_mean"] = TOL_MEAN_F4 if feed in F4_MEAN_FEEDS else TOL_MEAN
+
+    def _qtol(self, st):
+        """tolerance letter of distances: float32 when the stored precision OR the stored mean is single precision."""
+        return "f4" if (st["cfg"][3] == "f4" or st["cfg"][4] in F4_MEAN_FEEDS) else "f8"
 
     def _obs(self, m):
         p = m.precision
@@ -301,6 +440,10 @@ class C12(Check):
                                 if nc == "trunc" and block_size(st["edges"], mode, st["k"]) < 2:
                                     continue  # rank 0 "inverse" of a 1 x 1 block: not a model
                                 out.append(("fit", mode, bias, nc, dt, feed))
+            if feeds is FEEDS:
+                for feed in FORM_FEEDS:
+                    for mode in MODES:
+                        out.append(("fit", mode, 0, "none", "f8", feed))
             return out
         if st["models"] is None:
             return []
@@ -311,6 +454,20 @@ class C12(Check):
             out.append(("maha", q, 0, 0))
             out.append(("maha", q, 1, 1))
         out.append(("pca",))
+        # argument forms of the query: on every model with the plain inverse and bias 0 (the query path does not
+        # depend on how the precision was estimated; graph, k, mode, stored dtype, storage and class all vary)
+        if st["cfg"][1] == 0 and st["cfg"][2] == "none":
+            pc = st["cfg"][4].startswith("pc")
+            if st["cfg"][4] in FORM_FEEDS:
+                # model trained from another data form: the dtype forms of one vector only (training form x query
+                # form is not a full product)
+                for form, shape in PC_QFORMS_REDUCED if pc else VEC_QFORMS_REDUCED:
+                    out.append(("mform", form, shape, 1))
+                return out
+            for form, shape in PC_QFORMS if pc else VEC_QFORMS:
+                out.append(("mform", form, shape, 1))
+            for form, shape in PC_QFORMS_NOSUB if pc else VEC_QFORMS_NOSUB:
+                out.append(("mform", form, shape, 0))
         return out
 
     def is_query(self, op):
@@ -319,13 +476,13 @@ class C12(Check):
     # ------------------------------------------------------------------ helpers
     def _feed(self, st, rows, feed):
         rows = np.array(rows, dtype=float, copy=True)
-        if feed == "array":
-            return rows
-        if feed == "list":
-            return [r.copy() for r in rows]
+        if not feed.startswith("pc"):
+            return present(rows, feed)
         from menpo.shape import PointCloud
 
-        return [PointCloud(r.reshape(st["nv"], st["k"]).copy()) for r in rows]
+        dt = {"pc-i8": np.int64, "pc-f4": np.float32}.get(feed, np.float64)
+        pcs = [PointCloud(_exact(r.reshape(st["nv"], st["k"]), dt)) for r in rows]
+        return tuple(pcs) if feed == "pc-tuple" else pcs
 
     def _ncomp_value(self, st, mode, nc):
         b = block_size(st["edges"], mode, st["k"])
@@ -347,6 +504,8 @@ class C12(Check):
             return self._q_maha(st, op, verify)
         if op[0] == "pca":
             return self._q_pca(st, verify)
+        if op[0] == "mform":
+            return self._q_mform(st, op, verify)
         raise ValueError(op)
 
     def _fit(self, st, op, verify):
@@ -355,7 +514,8 @@ class C12(Check):
         _, mode, bias, nc, dt, feed = op
         dtype = np.float64 if dt == "f8" else np.float32
         ncv = self._ncomp_value(st, mode, nc)
-        cls = GMRFModel if feed == "pc" else GMRFVectorModel
+        cls = GMRFModel if feed.startswith("pc") else GMRFVectorModel
+        self._payload(st, feed)
         models, errs = [], []
         for sparse in (True, False):
             m, err = _try(lambda: cls(self._feed(st, st["X"], feed), make_graph(st["root"]), mode=mode, n_components=ncv, dtype=dtype, sparse=sparse, bias=bias))
@@ -439,7 +599,7 @@ class C12(Check):
                         self.note("sparsity:joined-pair-nonzero" if np.any(B != 0) else "sparsity:joined-pair-zero")
             # model parameters
             mv = np.asarray(m.mean_vector)
-            if mv.shape != (N,) or float(np.abs(mv - st["mu"]).max()) > TOL_MEAN * st["xscale"]:
+            if mv.shape != (N,) or float(np.abs(mv - st["mu"]).max()) > st["tol_mean"] * st["xscale"]:
                 fails.append(Failure(where, "mean-vector", "%s model: mean_vector %r is not the sample mean %r (%s)" % (name, mv, st["mu"], ctx)))
             if int(m.n_features_per_vertex) != k or int(m.n_features) != N or int(m.n_samples) != N_SAMPLES:
                 fails.append(Failure(where, "model-parameters", "%s model: n_features_per_vertex=%r n_features=%r n_samples=%r, expected %d %d %d (%s)" % (name, m.n_features_per_vertex, m.n_features, m.n_samples, k, N, N_SAMPLES, ctx)))
@@ -487,7 +647,7 @@ class C12(Check):
             if err:
                 fails.append(Failure(self._where(st, "mean"), "mean-raised", "%s model: mean() raised %s" % (name, err)))
                 continue
-            if feed == "pc":
+            if feed.startswith("pc"):
                 from menpo.shape import PointCloud
 
                 if not isinstance(got, PointCloud) or got.points.shape != (st["nv"], st["k"]):
@@ -496,7 +656,7 @@ class C12(Check):
                 vec = np.asarray(got.points, dtype=float).ravel()
             else:
                 vec = np.asarray(got, dtype=float)
-            if vec.shape != st["mu"].shape or float(np.abs(vec - st["mu"]).max()) > TOL_MEAN * st["xscale"]:
+            if vec.shape != st["mu"].shape or float(np.abs(vec - st["mu"]).max()) > st["tol_mean"] * st["xscale"]:
                 fails.append(Failure(self._where(st, "mean"), "mean-is-sample-mean", "%s model: mean() = %r, sample mean = %r (root %r letter %r)" % (name, vec, st["mu"], st["root"], st["cfg"])))
         self.note("mean:%s" % ("agrees" if not fails else "differs"))
         return fails
@@ -520,7 +680,7 @@ class C12(Check):
     def _call_maha(self, st, m, rows, form, sub, root):
         feed = st["cfg"][4]
         kw = {"subtract_mean": bool(sub), "square_root": bool(root)}
-        if feed == "pc":
+        if feed.startswith("pc"):
             from menpo.shape import PointCloud
 
             pcs = [PointCloud(r.reshape(st["nv"], st["k"]).copy()) for r in rows]
@@ -537,7 +697,7 @@ class C12(Check):
         if not verify:
             return []
         _, q, sub, root = op
-        dt = st["cfg"][3]
+        dt = self._qtol(st)
         tol = TOL[dt]
         rows, form = self._query_rows(st, q)
         n = rows.shape[0]
@@ -616,6 +776,103 @@ class C12(Check):
         self.note("maha:%s" % ("agrees" if not fails else "differs"))
         return fails
 
+    def _form_values(self, st, form, shape):
+        """float64 values carried by a query-form letter."""
+        if form in BOOL_FORMS:
+            V = st["qb"].astype(float)
+        elif form in INT_FORMS:
+            V = st["qi"]
+        elif form == "list-mixed":
+            V = np.vstack((st["qi"][0], st["q"][1], st["q"][2]))
+        else:
+            V = st["q"]
+        return np.array(V[:1] if shape in ("s", "r") else V, dtype=float, copy=True)
+
+    def _call_form(self, st, m, V, form, shape, sub):
+        kw = {"subtract_mean": bool(sub)}
+        if form.startswith("pc"):
+            from menpo.shape import PointCloud
+
+            nv, k = st["nv"], st["k"]
+            if form in ("pc-fortran", "pc-ro"):
+                P = present(V[0].reshape(nv, k), form[3:])
+                pc = PointCloud(P, copy=False)
+                return m.mahalanobis_distance(pc, **kw)
+            dt = NP_DTYPES[form.split("-")[-1]]
+            pcs = [PointCloud(_exact(r.reshape(nv, k), dt)) for r in V]
+            return m.mahalanobis_distance(pcs if shape == "b" else pcs[0], **kw)
+        arg = present(V[0] if shape == "s" else V, form)
+        return m.mahalanobis_distance(arg, **kw)
+
+    def _call_plain(self, st, m, V, shape, sub):
+        """the same values as a fresh C-contiguous float64 ndarray (PointCloud(s) for GMRFModel)."""
+        kw = {"subtract_mean": bool(sub)}
+        if st["cfg"][4].startswith("pc"):
+            from menpo.shape import PointCloud
+
+            pcs = [PointCloud(r.reshape(st["nv"], st["k"]).copy()) for r in V]
+            return m.mahalanobis_distance(pcs if shape == "b" else pcs[0], **kw)
+        return m.mahalanobis_distance(V[0].copy() if shape == "s" else V.copy(), **kw)
+
+    def _q_mform(self, st, op, verify):
+        if not verify:
+            return []
+        _, form, shape, sub = op
+        dt = self._qtol(st)
+        tol = TOL[dt]
+        V = self._form_values(st, form, shape)
+        n = V.shape[0]
+        mu, R, qs = st["mu"], st["ref"], st["qscale"]
+        D = V - mu if sub else V
+        ref = np.einsum("ij,jk,ik->i", D, R, D)
+        scale = qs * (np.abs(D).sum(axis=1) + np.abs(mu).sum() + 1.0) ** 2
+        where = self._where(st, "maha-form")
+        ctx = "query form %r shape %r subtract_mean=%r values %r, root %r letter %r" % (form, shape, bool(sub), V.tolist(), st["root"], st["cfg"])
+        fails = []
+        got = {}
+        for name, m in zip(("sparse", "dense"), st["models"]):
+            val, err = _try(lambda: self._call_form(st, m, V, form, shape, sub))
+            if err:
+                fails.append(Failure(where, "mahalanobis-raised", "%s model raised %s (%s)" % (name, err, ctx)))
+                continue
+            arr = np.asarray(val, dtype=float)
+            if arr.shape != (() if n == 1 else (n,)):
+                fails.append(Failure(where, "result-shape", "%s model returned shape %s for %d queries (%s)" % (name, arr.shape, n, ctx)))
+                continue
+            arr = arr.reshape(n)
+            if not np.all(np.isfinite(arr)):
+                fails.append(Failure(where, "distance-finite", "%s model returned %r (%s)" % (name, arr, ctx)))
+                continue
+            got[name] = arr
+            if np.any(arr < -tol * scale):
+                fails.append(Failure(where, "non-negative", "%s model returned %r (%s)" % (name, arr, ctx)))
+            err_v = np.abs(arr - ref) / scale
+            self._worst("mform-%s-%s" % (name, dt), float(err_v.max()))
+            if np.any(err_v > tol):
+                i = int(np.argmax(err_v))
+                fails.append(Failure(where, "%s-equals-quadratic-form" % name, "%s model: distance[%d] = %.12g, (x-mu)^T Q (x-mu) of the VALUES with the reference precision = %.12g (%s)" % (name, i, arr[i], ref[i], ctx)))
+            # the form of the argument must not matter: same model, same values as a plain float64 array
+            plain, err = _try(lambda: self._call_plain(st, m, V, shape, sub))
+            if err:
+                fails.append(Failure(where, "mahalanobis-raised", "%s model raised %s on the same values as a float64 array (%s)" % (name, err, ctx)))
+                continue
+            plain = np.asarray(plain, dtype=float).reshape(-1)
+            e1 = float((np.abs(plain - arr) / scale).max()) if plain.shape == arr.shape else np.inf
+            self._worst("form-vs-plain-%s" % dt, e1)
+            # (a single-precision matrix or mean times a small-integer / float32 query is evaluated by numpy in single
+            # precision: with float32 storage the form may matter at float32 rounding level, not more)
+            if not e1 <= (TOL_SAME_MODEL if dt == "f8" else tol):
+                fails.append(Failure(where, "form-independent", "%s model: %r for this form but %r for the same values as a float64 array (%s)" % (name, arr, plain, ctx)))
+        if len(got) == 2:
+            e2 = float((np.abs(got["sparse"] - got["dense"]) / scale).max())
+            self._worst("mform-sparse-vs-dense-%s" % dt, e2)
+            if not e2 <= tol:
+                fails.append(Failure(where, "sparse-equals-dense", "sparse %r vs dense %r (%s)" % (got["sparse"], got["dense"], ctx)))
+        self.note("qform:%s-%s" % (form, shape))
+        self.note("qform-opts:subtract%d" % sub)
+        self.note("qform:%s" % ("agrees" if not fails else "differs"))
+        return fails
+
     def _q_pca(self, st, verify):
         if not verify:
             return []
@@ -637,8 +894,8 @@ class C12(Check):
             C = np.asarray(pm.components, dtype=float)
             lam = np.asarray(pm.eigenvalues, dtype=float)
             mean = pm.mean()
-            mean = np.asarray(mean.as_vector() if feed == "pc" else mean, dtype=float)
-            if mean.shape != st["mu"].shape or float(np.abs(mean - st["mu"]).max()) > TOL_MEAN * st["xscale"]:
+            mean = np.asarray(mean.as_vector() if feed.startswith("pc") else mean, dtype=float)
+            if mean.shape != st["mu"].shape or float(np.abs(mean - st["mu"]).max()) > st["tol_mean"] * st["xscale"]:
                 fails.append(Failure(where, "pca-mean", "PCA of the precision has mean %r, sample mean %r (%s)" % (mean, st["mu"], ctx)))
             if C.ndim != 2 or C.shape[1] != N or lam.shape != (C.shape[0],):
                 fails.append(Failure(where, "pca-shape", "components %s eigenvalues %s (%s)" % (C.shape, lam.shape, ctx)))
@@ -663,7 +920,8 @@ class C12(Check):
         if self.tier != "quick":
             need += ["graph:U4", "graph:D4", "ncomp:full"]
         need += ["mode:%s" % m for m in MODES] + ["bias:0", "bias:1", "ncomp:none", "ncomp:trunc"]
-        need += ["dtype:%s" % d for d in DTYPES] + ["feed:%s" % f for f in FEEDS] + ["k:1", "k:2", "k:3"]
+        need += ["dtype:%s" % d for d in DTYPES] + ["feed:%s" % f for f in FEEDS + FORM_FEEDS] + ["k:1", "k:2", "k:3"]
+        need += ["qform:%s-%s" % fs for fs in VEC_QFORMS + PC_QFORMS] + ["qform:agrees", "qform-opts:subtract0", "qform-opts:subtract1"]
         need += ["sparsity:unjoined-pair-checked", "sparsity:isolated-vertex-checked", "sparsity:joined-pair-nonzero", "psd:singular", "psd:definite"]
         need += ["mean:agrees", "maha:agrees", "maha:at-mean-zero", "maha:positive", "maha:batch-vs-single-compared", "pca:dense-agrees", "pca:sparse-agrees"]
         need += ["maha-query:%s" % q for q in QUERIES] + ["maha-opts:subtract1-sqrt0", "maha-opts:subtract0-sqrt0", "maha-opts:subtract1-sqrt1"]
@@ -696,10 +954,13 @@ class C12(Check):
             "n_components": NCOMP_QUICK if self.tier == "quick" else NCOMP_THOROUGH,
             "dtypes": DTYPES,
             "feeds": FEEDS,
+            "training_data_form_letters": FORM_FEEDS,
+            "query_form_letters": ["%s/%s" % fs for fs in VEC_QFORMS + PC_QFORMS],
+            "query_form_letters_without_mean_subtraction": ["%s/%s" % fs for fs in VEC_QFORMS_NOSUB + PC_QFORMS_NOSUB],
             "query_letters": QUERIES,
             "n_samples": N_SAMPLES,
             "guards": {"block_cov_cond_max": COND_MAX, "block_cov_smallest_eig_gap_min": GAP_MIN},
-            "tolerances": {"precision_rel_max_f8": TOL["f8"], "precision_rel_max_f4": TOL["f4"], "mean_abs_scaled": TOL_MEAN, "batch_vs_single": TOL_SAME_MODEL, "pca_eigpair_f8": TOL_EIGPAIR["f8"], "pca_eigpair_f4": TOL_EIGPAIR["f4"]},
+            "tolerances": {"precision_rel_max_f8": TOL["f8"], "precision_rel_max_f4": TOL["f4"], "mean_abs_scaled": TOL_MEAN, "mean_abs_scaled_float32_data": TOL_MEAN_F4, "batch_vs_single": TOL_SAME_MODEL, "pca_eigpair_f8": TOL_EIGPAIR["f8"], "pca_eigpair_f4": TOL_EIGPAIR["f4"]},
         }
 
     def assumptions(self):
@@ -710,6 +971,11 @@ class C12(Check):
             "4-vertex digraphs (thorough) run with k in {1, 2} and the ndarray feed only; every other graph with k in {1, 2, 3} and all three feeds",
             "three generic query vectors per (V, k) plus the sample mean; subtract_mean=False and square_root=True on a subset of the query letters",
             "[interp] principal_components_analysis is used as an observation channel only (returned pairs must be eigenpairs of the reference precision); equality of the PCA between storages is not demanded - the sparse route asks ARPACK for N-1 pairs by design",
+            "argument forms: the same payload as int64/int32/int16/uint8/float32/float16/bool ndarrays, python lists / tuples of python or numpy scalars, lists / tuples of rows, mixed-dtype lists of arrays, "
+            "read-only, column-major, strided and negative-stride views, integer / float32 / bool / non-owning PointClouds; training-data forms run with both modes, bias 0, plain inverse, float64 precision; "
+            "query forms run on every model with bias 0 and the plain inverse (the integer payload Xi = rint(16 X) is used where a dtype cannot carry X)",
+            "forms that the unchanged tree rejects or mishandles outside the property text are not letters: a generator for GMRFVectorModel (IndexError), a tuple of PointClouds as query (AttributeError), float16 training data "
+            "(half-precision mean), a list of PointClouds of mixed dtype starting with an integer one (as_matrix truncates the others - reported)",
             "incremental models are the subject of C11 and are not built here",
         ]
 
